@@ -301,7 +301,8 @@ pub fn gen(seed: u64, count: usize, tier: &str, params: &Params) -> Vec<Value> {
     for c in 0..count {
         let longlanes = params.get("long").map(|s| s == "1").unwrap_or(false);
         let blocks = params.get("long").map(|s| s == "2").unwrap_or(false);
-        let n = if blocks { *rng.pick(&[63i64, 64, 65, 127, 128, 128, 129, 191, 192, 192, 193, 255, 256, 256, 257]) } else if longlanes { rng.range(120, 200) } else if c % 17 == 0 { rng.range(0, 3) } else { rng.range(1, maxlen) };
+        let verylong = params.get("long").map(|s| s == "3").unwrap_or(false);
+        let n = if verylong { rng.range(300, 700) } else if blocks { *rng.pick(&[63i64, 64, 65, 127, 128, 128, 129, 191, 192, 192, 193, 255, 256, 256, 257]) } else if longlanes { rng.range(120, 200) } else if c % 17 == 0 { rng.range(0, 3) } else { rng.range(1, maxlen) };
         let n = if oor_den == 0 { n.max(1) } else { n };
         let distinct = match rng.below(4) {
             0 => 1 + rng.below(2) as i64,
@@ -369,7 +370,8 @@ pub fn gen(seed: u64, count: usize, tier: &str, params: &Params) -> Vec<Value> {
                 cases.push(json!({"ev": "select", "a": a, "i": i.min(BIG), "pv": script, "fb": fb, "vmap": vmap, "strides": strides, "keyed": keyed}));
             }
             kind => {
-                let m = rng.below(if tier == "thorough" { 33 } else { 9 });
+                // lanes beyond 256 elements: enough requests that some lie to the right of a pivot of rank >= 256
+                let m = if verylong { 6 + rng.below(11) } else { rng.below(if tier == "thorough" { 33 } else { 9 }) };
                 let mut idx: Vec<i64> = (0..m).map(|_| if n == 0 { 0 } else { rng.range(0, n - 1) }).collect();
                 if deep {
                     // sparse requests at and just beyond the end of the run, unordered and with repeats
